@@ -20,6 +20,16 @@ type c14Case struct {
 
 // c14Contents are the byte contents a field can be filled with: admission is about LENGTHS in bytes, whatever
 // the bytes are (text in any encoding, binary, blanks).
+// code lengths of the suite clause: -1..12 and values congruent to legal ones modulo 2^8 / 2^16 / 2^32 (a range
+// check made in a narrower type lets them through)
+var c14Digits = func() []int {
+	var out []int
+	for d := -1; d <= 12; d++ {
+		out = append(out, d)
+	}
+	return append(out, 260, 262, 266, 518, 65542, 1<<32+6, -250, -(1<<32)+6, 1<<63-1, -1<<63)
+}()
+
 var c14Contents = []string{"pattern", "utf8-2byte", "utf8-3byte", "utf8-4byte", "zeros", "ff", "ascii-digits", "blanks", "utf8-mixed", "continuation-bytes", "separators"}
 
 func fillContent(n int, seed byte, content int) []byte {
@@ -153,7 +163,7 @@ func c14(r *ev.Run) {
 		var local int64
 		for qf := 0; qf <= 6; qf++ {
 			for ph := 0; ph <= 3; ph++ {
-				for d := -1; d <= 12; d++ {
+				for _, d := range c14Digits {
 					for h := 0; h <= 4; h++ {
 						for _, ts := range []int{-1, 0, 1, 60} {
 							sh := shape{Text: "s", Hash: h, Digits: d, C: m&1 != 0, Q: m&2 != 0, P: m&4 != 0, S: m&8 != 0, T: m&16 != 0, QF: qf, PH: ph, TS: ts}
@@ -332,7 +342,7 @@ func c14(r *ev.Run) {
 	sh.Text, sh.Digits = "s", 6
 	r.Sample(map[string]any{"case": c14Case{sh, [5]int{8, 129, 20, 5, 8}, "input.Validate", 0}, "want_admitted": false})
 	r.Sample(map[string]any{"case": c14Case{shape{Text: "s", Hash: 0, Digits: 3, Q: true, QF: 1}, [5]int{8, 16, 20, 5, 8}, "suite.Validate", 0}, "want_admitted": false})
-	r.Set("alphabet", map[string]any{"suite clause": "32 subsets x challenge format 0..6 x password hash 0..3 x digits -1..12 x hash 0..4 x time step {-1,0,1,60} through SuiteConfig.Validate, NewSuite, GenerateOCRA, ValidateOCRA", "input clause": fmt.Sprintf("per usable (subset, format, password hash) shape: every length -1(nil),0..140 of each field alone; every pair of fields x every pair of lengths over %d lengths; boundary set through GenerateOCRA/ValidateOCRA; unselected fields nil/0/1/8/200", len(pairLens))})
+	r.Set("alphabet", map[string]any{"suite clause": "32 subsets x challenge format 0..6 x password hash 0..3 x digits -1..12 and wraps (260, 262, 266, 518, 65542, 2^32+6, -250 ...) x hash 0..4 x time step {-1,0,1,60} through SuiteConfig.Validate, NewSuite, GenerateOCRA, ValidateOCRA", "input clause": fmt.Sprintf("per usable (subset, format, password hash) shape: every length -1(nil),0..140 of each field alone; every pair of fields x every pair of lengths over %d lengths; boundary set through GenerateOCRA/ValidateOCRA; unselected fields nil/0/1/8/200", len(pairLens))})
 	r.Rule("every configuration / length combination of the grid through the real admission paths vs an admission predicate written from the property text; distinct = distinct usable suite shapes + field shapes")
 	r.Assume("undefined enum values of challenge format / password hash are outside the property")
 }
